@@ -1,4 +1,101 @@
 import EaselModel.Core.Proto
-/-! Line-protocol driver for the C17 model (stub: answers bad-op until the model lands). -/
-open EaselModel.Proto
-def main : IO Unit := runDriver () (fun s _ => (s, "bad-op"))
+import EaselModel.Gencode.Model
+import EaselModel.Generated.Gencode
+/-! Line-protocol driver for the C17 model (same ops as harness/h_gencode.c). -/
+open EaselModel EaselModel.Proto EaselModel.Alphabet EaselModel.Gencode
+
+def hx (l : List Nat) : String := hexOrDash (l.map UInt8.ofNat)
+
+def argBytes (ws : List String) (k : String) : List Nat :=
+  match argHex? ws k with
+  | some b => b.map (·.toNat)
+  | none => []
+
+instance : Inhabited Alphabet := ⟨{ type := 0, K := 0, Kp := 0, sym := [], inmap := [], degen := [], ndegen := [], complement := none }⟩
+
+def NT : Alphabet := (Alphabet.createDna).getD default
+def AA : Alphabet := (Alphabet.createAmino).getD default
+
+
+def makeCode (ws : List String) : Option Gencode := do
+  let id := (argInt? ws "id").getD 1
+  let g ← setTable EaselModel.Generated.Gencode.tables id
+  match arg? ws "init" with
+  | some "any" => some (setInitiatorAny AA g)
+  | some "aug" => some (setInitiatorOnlyAUG NT g)
+  | _ => some g
+
+def byteOfInt (t : Int) : Nat := (t % 256).toNat
+
+def tripletsLine (g : Gencode) : String := Id.run do
+  let Kp := NT.Kp
+  let mut tr : Array UInt8 := #[]
+  let mut ini : Array UInt8 := #[]
+  let mut fault := false
+  for a in [0:Kp] do
+    for b in [0:Kp] do
+      for c in [0:Kp] do
+        match getTranslation NT AA g a b c, isInitiator NT g a b c with
+        | some t, some i =>
+          tr := tr.push (UInt8.ofNat (byteOfInt t))
+          ini := ini.push (UInt8.ofNat (byteOfInt i))
+        | _, _ => fault := true
+  if fault then return "fault"
+  return s!"ok tr={hexOrDash tr.toList} in={hexOrDash ini.toList}"
+
+def orfStr (o : Orf) : String := s!" orf{o.num}:{o.frame}:{o.start}:{o.stop}:{o.aa.length}:{hx o.aa}"
+
+def step (s : Unit) (line : String) : Unit × String :=
+  let ws := words line
+  match ws with
+  | [] => (s, "bad-op")
+  | op :: _ =>
+  if op == "ntables" then
+    let ids := ((List.range 302).map (fun (i : Nat) => Int.ofNat i - 2)).filter fun id => (setTable EaselModel.Generated.Gencode.tables id).isSome
+    (s, "ok ids=" ++ ",".intercalate (ids.map toString))
+  else
+  match makeCode ws with
+  | none => (s, "enotfound")
+  | some g =>
+  if op == "table" then
+    (s, s!"ok id={g.translTable} desc={hx (strBytes g.desc)} basic={hx g.basic} init={hx g.isInit}")
+  else if op == "triplets" then (s, tripletsLine g)
+  else if op == "codon" then
+    let a := (argNat? ws "a").getD 0; let b := (argNat? ws "b").getD 0; let c := (argNat? ws "c").getD 0
+    match getTranslation NT AA g a b c, isInitiator NT g a b c with
+    | some t, some i => (s, s!"ok aa={t} init={i}")
+    | _, _ => (s, "fault")
+  else if op == "write" then
+    match write NT AA g ((argNat? ws "comment").getD 0 ≠ 0) with
+    | some bytes => (s, s!"ok {hx bytes}")
+    | none => (s, "fault")
+  else if op == "orfs" then
+    let txt := (argBytes ws "dna").takeWhile (· ≠ 0)
+    let (st, dsq) := NT.digitize txt
+    if st ≠ .ok then (s, "bad-op") else
+    let d := (dsq.drop 1).take (dsq.length - 2)
+    let L := d.length
+    let cuts := match arg? ws "cuts" with
+      | some "-" => [L]
+      | some cs => (cs.splitOn ",").filterMap String.toNat?
+      | none => [L]
+    if cuts.foldl (· + ·) 0 ≠ L || cuts.headD 0 < 3 && (arg? ws "cuts").isSome && arg? ws "cuts" ≠ some "-" then (s, "bad-op") else
+    let usingN := (argNat? ws "using").getD 0
+    let cfg : Cfg := { usingInit := usingN ≠ 0, minlen := (argInt? ws "minlen").getD 20 }
+    let strand := (arg? ws "strand").getD "b"
+    let w : Work := {}
+    let r : Option Work := do
+      if L < 3 then some w else
+      let w ← if strand ≠ "c" then runStrand NT AA g cfg w false d cuts else some w
+      if strand ≠ "w" then
+        let rc ← match NT.revcomp dsq L with
+          | .ok (some r) => some r
+          | _ => none
+        runStrand NT AA g cfg w true ((rc.drop 1).take L) cuts
+      else some w
+    match r with
+    | none => (s, "fault")
+    | some w => (s, s!"ok n={w.out.length}" ++ String.join (w.out.reverse.map orfStr))
+  else (s, "bad-op")
+
+def main : IO Unit := runDriver () step
